@@ -27,6 +27,9 @@ use crate::{
 /// Binding power for prefix operators.
 const PREFIX_BP: u8 = 19;
 
+/// Maximum nesting depth of expressions and subqueries (same limit as `ExprParser`).
+const MAX_DEPTH: usize = 64;
+
 /// Returns binding power for infix operators.
 const fn infix_binding_power(op: BinaryOp) -> (u8, u8) {
     use BinaryOp::*;
@@ -49,6 +52,7 @@ pub struct Parser<'a> {
     lexer: Lexer<'a>,
     current: Token,
     peeked: Option<Token>,
+    depth: usize,
 }
 
 impl<'a> Parser<'a> {
@@ -62,7 +66,17 @@ impl<'a> Parser<'a> {
             lexer,
             current,
             peeked: None,
+            depth: 0,
         }
+    }
+
+    /// Enters one nesting level; fails with `TooDeep` instead of exhausting the stack.
+    fn enter(&mut self) -> ParseResult<()> {
+        if self.depth >= MAX_DEPTH {
+            return Err(ParseError::new(ParseErrorKind::TooDeep, self.current.span));
+        }
+        self.depth += 1;
+        Ok(())
     }
 
     /// Returns the source text.
@@ -192,6 +206,13 @@ impl<'a> Parser<'a> {
 
     /// Parses an expression with the given minimum binding power.
     fn parse_expr_bp(&mut self, min_bp: u8) -> ParseResult<Expr> {
+        self.enter()?;
+        let result = self.parse_expr_bp_inner(min_bp);
+        self.depth -= 1;
+        result
+    }
+
+    fn parse_expr_bp_inner(&mut self, min_bp: u8) -> ParseResult<Expr> {
         let mut lhs = self.parse_prefix_expr()?;
 
         loop {
@@ -765,6 +786,13 @@ impl<'a> Parser<'a> {
     /// Parses a SELECT statement body (after the SELECT keyword).
     /// Used for both standalone SELECT and subqueries.
     fn parse_select_body(&mut self) -> ParseResult<SelectStmt> {
+        self.enter()?;
+        let result = self.parse_select_body_inner();
+        self.depth -= 1;
+        result
+    }
+
+    fn parse_select_body_inner(&mut self) -> ParseResult<SelectStmt> {
         // Handle DISTINCT or ALL (ALL is the default, just consume it)
         let distinct = if self.eat(&TokenKind::Distinct) {
             true
